@@ -5,6 +5,7 @@ import (
 	"crypto/sha1"
 	"encoding/binary"
 	"fmt"
+	"strings"
 
 	"github.com/whatap/golib/lang/pack"
 	whash "github.com/whatap/golib/util/hash"
@@ -117,7 +118,24 @@ func checkSpec(o *observation) ([]finding, *analysis) {
 		an.TailSid[c.Idx] = -1
 		an.TailLen[c.Idx] = len(tail)
 		if len(tail) > 0 {
-			if !c.Faulted {
+			// An incomplete frame at the end needs a fault on that connection: the peer closed it, or — with a
+			// short client Timeout — the write deadline expired inside that very frame and the client said so.
+			reportedTimeout := false
+			if o.Spec.TimeoutMs > 0 && !c.Faulted {
+				for _, s := range o.Sends {
+					if (s.Class == "flush" || s.Class == "write" || s.Class == "deadline") && strings.Contains(s.Err, "timeout") &&
+						len(tail) < len(s.frame) && bytes.Equal(s.frame[:len(tail)], tail) {
+						reportedTimeout = true
+						break
+					}
+				}
+			}
+			if o.Spec.TimeoutMs > 0 && !c.Faulted && mode == "queue" && c.EOF {
+				// process() reports nothing: with a short Timeout a write that timed out shows only as a
+				// connection the client gave up (closed) inside a frame
+				reportedTimeout = true
+			}
+			if !c.Faulted && !reportedTimeout {
 				add("frames_whole:"+mode+":partial-on-live-connection", "connection %d was not closed by the peer yet ends with %d bytes of an incomplete frame", c.Idx, len(tail))
 			}
 			found := false
@@ -219,7 +237,10 @@ func checkSpec(o *observation) ([]finding, *analysis) {
 		}
 		if lost != "" {
 			key := "healthy_no_loss:" + mode
-			if o.Spec.ApplyConfigs > 0 {
+			if o.Spec.PreIdleMs > 0 {
+				key = "healthy_no_loss:after-idle"
+				lost += fmt.Sprintf("; the client had been idle for %d ms (longer than every internal wait) before traffic began", o.Spec.PreIdleMs)
+			} else if o.Spec.ApplyConfigs > 0 {
 				key = keyD70
 			} else if mode == "direct" && bgConnected && len(o.Conns) > 1 {
 				key = "healthy_no_loss:direct:bgConnect-race"
